@@ -37,6 +37,8 @@ FieldCases == [kind : {"field"}, h : {1, 2, 6, 9, 11}, tas : {200}, f : Fields \
 \* the azimuth of the ground-track point (th); a given heading of 0 degrees
 \* (h = 1) is a heading like any other
 HeadingCases == [kind : {"uniform"}, h : 1..12, th : 1..12, given : BOOLEAN, tas : {200}, u : {15, -20}, v : {25, 0}]
+\* an explicit heading is an angle: written in [0, 360) or as the same direction minus 360 degrees it is the same heading
+HeadingForms == {"0..360", "negative"}
 Eff(x) == IF "given" \in DOMAIN x THEN (IF x.given THEN x.h ELSE x.th) ELSE x.h
 \* a weather file is a coordinate-labelled array: the order in which it stores its
 \* pressure levels and latitudes (ERA5: both descending; "asc": both ascending)
